@@ -87,8 +87,11 @@ func (b *hookBus) install() {
 }
 
 func (b *hookBus) uninstall() {
-	VerifHook = nil
-	region.VerifHook = nil
+	// the hooks stay installed (the next scenario installs its own before it starts anything): writing nil here could race
+	// with goroutines that a defective client leaves behind
+	b.mu.Lock()
+	b.done = true
+	b.mu.Unlock()
 }
 
 type c19Call struct {
@@ -107,10 +110,15 @@ type c19Env struct {
 	wg    sync.WaitGroup
 	conns []*verifsim.Conn
 	cmu   sync.Mutex
+	// ctx is live during the whole scenario and all its checks; it is only cancelled in the tear-down, so that a caller
+	// that is (wrongly) still blocked does not keep the scenario from ending
+	ctx    context.Context
+	cancel context.CancelFunc
 }
 
 func newC19Env(queue int, opts ...Option) *c19Env {
 	e := &c19Env{tr: &verifsim.Trace{}}
+	e.ctx, e.cancel = context.WithCancel(context.Background())
 	e.cl = verifsim.NewCluster(e.tr)
 	for _, h := range []string{"ms", "rs1", "rs2"} {
 		e.cl.AddServer(h)
@@ -137,14 +145,14 @@ func (e *c19Env) goCall(name string, f func() error) {
 
 func (e *c19Env) get(key string) {
 	e.goCall("get:"+key, func() error {
-		g, _ := hrpc.NewGet(context.Background(), []byte("t"), []byte(key))
+		g, _ := hrpc.NewGet(e.ctx, []byte("t"), []byte(key))
 		_, err := e.c.Get(g)
 		return err
 	})
 }
 func (e *c19Env) put(key string) {
 	e.goCall("put:"+key, func() error {
-		p, _ := hrpc.NewPut(context.Background(), []byte("t"), []byte(key), map[string]map[string][]byte{"f": {"q": []byte("v")}}, hrpc.SkipBatch())
+		p, _ := hrpc.NewPut(e.ctx, []byte("t"), []byte(key), map[string]map[string][]byte{"f": {"q": []byte("v")}}, hrpc.SkipBatch())
 		_, err := e.c.Put(p)
 		return err
 	})
@@ -153,10 +161,10 @@ func (e *c19Env) batch(keys ...string) {
 	e.goCall("batch:"+strings.Join(keys, ","), func() error {
 		var b []hrpc.Call
 		for _, k := range keys {
-			p, _ := hrpc.NewPut(context.Background(), []byte("t"), []byte(k), map[string]map[string][]byte{"f": {"q": []byte("v")}})
+			p, _ := hrpc.NewPut(e.ctx, []byte("t"), []byte(k), map[string]map[string][]byte{"f": {"q": []byte("v")}})
 			b = append(b, p)
 		}
-		res, ok := e.c.SendBatch(context.Background(), b)
+		res, ok := e.c.SendBatch(e.ctx, b)
 		if !ok {
 			for _, r := range res {
 				if r.Error != nil {
@@ -169,7 +177,7 @@ func (e *c19Env) batch(keys ...string) {
 }
 func (e *c19Env) scan() {
 	e.goCall("scan", func() error {
-		s, _ := hrpc.NewScanStr(context.Background(), "t")
+		s, _ := hrpc.NewScanStr(e.ctx, "t")
 		sc := e.c.Scan(s)
 		for {
 			_, err := sc.Next()
@@ -258,6 +266,7 @@ func c19finish(e *c19Env, rep *simReport, name string, closedAt time.Time, baseG
 	}
 	e.cmu.Unlock()
 	// 4. no goroutine left behind
+	e.cancel() // (callers still blocked have been reported above; let them go)
 	e.wg.Wait()
 	time.Sleep(time.Minute)
 	synctest.Wait()
@@ -601,7 +610,6 @@ func TestVerifC20(t *testing.T) {
 			}
 			time.Sleep(time.Minute)
 			synctest.Wait()
-			VerifHook = nil
 			ndj.Write(map[string]any{"ev": "reset", "scenario": p.name})
 			for _, e := range evs {
 				ndj.Write(e)
@@ -712,7 +720,6 @@ func TestVerifC20(t *testing.T) {
 				}
 				time.Sleep(time.Minute)
 				synctest.Wait()
-				VerifHook = nil
 				ndj.Write(map[string]any{"ev": "reset", "scenario": name})
 				for _, e := range evs {
 					ndj.Write(e)
